@@ -610,6 +610,14 @@ func (x *Enc) valEq(a, b Val, t types.Type) Term {
 
 func (x *Enc) binop(fr *frame, b *ssa.BasicBlock, op token.Token, a, c Val, ta, tc, tr types.Type, reach Term, pos token.Pos) Val {
 	one := func(t Term) Val { return Val{ts: []Term{t}} }
+	// the address of a field / element of an existing object is never nil (taking it from a nil base panics first)
+	isNil := func(v Val) bool { return v.fp == nil && len(v.ts) == 1 && v.ts[0] == "0" }
+	if (op == token.EQL || op == token.NEQ) && ((a.fp != nil && isNil(c)) || (c.fp != nil && isNil(a))) {
+		if op == token.EQL {
+			return one("false")
+		}
+		return one("true")
+	}
 	switch op {
 	case token.EQL:
 		if a.fp != nil || c.fp != nil {
